@@ -217,6 +217,84 @@ func %s() {
 `, c.id, name, text, parts[0], valExpr)
 		fam.Instances = append(fam.Instances, Instance{Func: name, Stratum: "nested:" + c.id, Desc: "return nested in " + c.id, Text: text, Expect: []string{"first call"}})
 	}
+	b.WriteString(`
+type acct struct {
+	Balance int64
+	secret  int64
+}
+
+// a return whose value cannot be handed out (unexported field) fails the rule: no entry
+func H_unexportable_return() {
+	dc := newDC(nil)
+	dc.Add("acc", &acct{Balance: 5, secret: 9})
+	rb := buildText(dc, "rule \"good\" salience 9 begin\n return acc.Balance\nend\nrule \"leak\" salience 5 begin\n return acc.secret\nend\nrule \"plain\" salience 1 begin\n x = 1\nend\n")
+	for model := 0; model < 4; model++ {
+		eng := engine.NewGengine()
+		var err error
+		switch model {
+		case 0:
+			err = eng.Execute(rb, true)
+		case 1:
+			err = eng.ExecuteConcurrent(rb)
+		case 2:
+			err = eng.ExecuteMixModel(rb)
+		default:
+			err = eng.ExecuteSelectedRules(rb, []string{"leak", "good", "plain"})
+		}
+		res, _ := eng.GetRulesResultMap()
+		vnd.Assert(err != nil, "the rule whose value cannot be returned fails")
+		vnd.Assert(len(res) == 1, "only the rule that returned has an entry")
+		x, ok := res["good"].(int64)
+		vnd.Assert(ok && x == 5, "the returned value")
+	}
+	vnd.Reach("first call")
+	vnd.Reach("second call")
+}
+`)
+	fam.Instances = append(fam.Instances, Instance{Func: "H_unexportable_return", Stratum: "nested:unexported", Desc: "return of an unexported field", Expect: []string{"first call"}})
+	// the pool's wrappers hand out the same map
+	for _, pc := range poolCalls() {
+		name := "P_" + pc.name
+		call := strings.NewReplacer("{\"a\"}", "{\"r0\"}", "{\"b\"}", "{\"r1\"}", "data[\"req\"]", "g[0]", "data[\"resp\"]", "g[1]", "\"req\"", "\"g0\"", "\"resp\"", "\"g1\"").Replace(pc.call)
+		call = strings.ReplaceAll(call, ", true, ", ", pol, ")
+		call = strings.ReplaceAll(call, "data, true)", "data, pol)")
+		fmt.Fprintf(&b, `
+// pool.%s: the map handed to the caller
+func %s() {
+	n := 2
+	g, q, h, f, v := symFlags("g", n), symFlags("q", n), symFlags("h", n), symFlags("f", n), symVals("v", n)
+	pol := vnd.Bool("pol")
+	_ = pol
+	apis := map[string]interface{}{"ev": func(x string) { vnd.Event(x) }, "one": int64(1), "zero": int64(0)}
+	for i := 0; i < n; i++ {
+		k := itoa(i)
+		apis["g"+k], apis["q"+k], apis["h"+k], apis["f"+k], apis["v"+k] = false, false, false, false, int64(0)
+	}
+	gp, e := engine.NewGenginePool(1, 2, engine.SortModel, rulesTextOpt(n, fixedSal(n), "gqh"), apis)
+	must(e, "pool construction")
+	names := []string{"r1", "r0"}
+	stag := &engine.Stag{}
+	_, _ = names, stag
+	data := map[string]interface{}{}
+	for i := 0; i < n; i++ {
+		k := itoa(i)
+		data["g"+k], data["q"+k], data["h"+k], data["f"+k], data["v"+k] = g[i], q[i], h[i], f[i], v[i]
+	}
+	base := countsOf(n)
+	err, res := %s
+	_ = err
+	vnd.Event("ret")
+	vnd.RequireJoined("ret")
+	vnd.StopIfViolated()
+	vnd.Reach("first call")
+	vnd.Reach("second call")
+	if %v {
+		checkResult(res, n, base, g, q, h, f, v)
+	}
+}
+`, pc.name, name, call, pc.name != "ExecuteRulesWithSpecifiedEM")
+		fam.Instances = append(fam.Instances, Instance{Func: name, Stratum: "pool:" + pc.name, Desc: "result map handed out by pool." + pc.name, Expect: []string{"first call"}})
+	}
 	b.WriteString("\nfunc pick56(k int64) int64 {\n\tif k == 1 {\n\t\treturn 5\n\t}\n\treturn 6\n}\n")
 	finishFamily(fam, pkg, b.String())
 	return fam, nil
